@@ -462,6 +462,36 @@ def check(chk):
     chk.require(g_ is not None, "C08: _enable_limit_reached vanished")
     ok = any(call_attr(c) == "disable" and src(c.func.value) == "self" for c in g_.calls())
     chk.ob("PAIR-10", "the watchdog switches the coil off", ok, g_.where(), construct=g_.ident, text="watchdog disables")
+    # who may cancel a safety timer: the delays that switch the coil off ('timed_disable' of a software-timed pulse, the
+    # max_hold_duration watchdog) are cancelled only on a path that itself switches the coil off, or by the code that re-arms
+    # them together with a new actuation
+    safety_names = set()
+    for m_ in drv.methods.values():
+        for c in m_.calls():
+            if call_attr(c) in ("add", "reset", "add_if_doesnt_exist") and src(c.func.value) == "self.delay":
+                cb = kwarg(c, "callback") or (c.args[1] if len(c.args) > 1 else None)
+                nm = kwarg(c, "name") or (c.args[2] if len(c.args) > 2 else None)
+                if cb is not None and src(cb) in ("self.disable", "self._enable_limit_reached") and nm is not None and isinstance(const_value(nm), str):
+                    safety_names.add(const_value(nm))
+    chk.ob("PAIR-10", "the coil's switch-off timers are named (so that only disable() can cancel them)", len(safety_names) >= 2, drv.where(),
+           detail=str(sorted(safety_names)), construct=drv.ident, text="safety timer names", nontrivial=False)
+    n_cancel = 0
+    for c_ in repo.all_classes("mpf/devices/"):
+        if not repo.is_subclass(c_, drv) and c_ is not drv:
+            continue
+        for m_ in c_.methods.values():
+            mcfg = m_.cfg()
+            for n, c in [(n, c) for n, c in mcfg.calls_named("remove", "clear", "run_now") if src(c.func.value) == "self.delay"]:
+                tgt = const_value(c.args[0]) if c.args else (const_value(kwarg(c, "name")) if kwarg(c, "name") is not None else None)
+                if call_attr(c) != "clear" and tgt not in safety_names:
+                    continue
+                n_cancel += 1
+                offs_ = [x.id for x, cc in mcfg.calls_named("disable") if src(cc.func.value) == "self.hw_driver"]
+                ok = bool(offs_) and (any(mcfg.dominates(o, n.id) for o in offs_) or mcfg.must_pass(n.id, offs_, ignore_exc=True) is None)
+                chk.ob("PAIR-10", "%s cancels the switch-off timer `%s` only together with switching the coil off" % (m_.qualname, tgt or "*"),
+                       ok, m_.where(c), detail="a cancelled timer with the coil still on leaves it energised for ever (e.g. when a later check refuses the request)",
+                       construct=m_.ident, text="safety timer %s cancelled in %s without hw disable" % (tgt or "*", m_.name))
+    chk.ob("PAIR-10", "cancellation sites of the switch-off timers examined", n_cancel >= 1, drv.where(), detail="%d" % n_cancel, nontrivial=False)
     f = drv.methods["disable"]
     cfg = f.cfg()
     off = [n.id for n, c in cfg.calls_named("disable") if src(c.func.value) == "self.hw_driver"]
@@ -542,6 +572,8 @@ def battery():
         M("event_pulse bypasses verification", D, "        self.pulse(pulse_ms, pulse_power, max_wait_ms)", "        self._pulse_now(pulse_ms, pulse_power)", ("SIB-2", "FLOW-3")),
         M("event_enable swaps powers", D, "        self.enable(pulse_ms, pulse_power, hold_power)", "        self.enable(pulse_ms, hold_power, pulse_power)", "SIB-2"),
         # twins
+        M("enable() cancels a running software pulse's switch-off before it has verified anything", DRV, "        assert self.hw_driver is not None\n        pulse_ms = self.get_and_verify_pulse_ms(pulse_ms)\n        wait_ms = self._notify_psu_and_get_wait_ms(pulse_ms, max_wait_ms)\n\n        pulse_power = self.get_and_verify_pulse_power(pulse_power)\n        hold_power", "        assert self.hw_driver is not None\n        self.delay.remove('timed_disable')\n        pulse_ms = self.get_and_verify_pulse_ms(pulse_ms)\n        wait_ms = self._notify_psu_and_get_wait_ms(pulse_ms, max_wait_ms)\n\n        pulse_power = self.get_and_verify_pulse_power(pulse_power)\n        hold_power", "PAIR-10"),
+        M("pulse clears all delays", DRV, "        assert self.hw_driver is not None\n        assert self.platform is not None\n        # If this driver pulses via timed_enable, call that instead", "        assert self.hw_driver is not None\n        assert self.platform is not None\n        self.delay.clear()\n        # If this driver pulses via timed_enable, call that instead", "PAIR-10"),
         M("hold limit 1.0 without allow_enable", DRV, "        elif self.config['allow_enable']:\n            max_hold_power = 1.0", "        elif self.config['allow_enable'] or not self.config['default_hold_power']:\n            max_hold_power = 1.0", "DOM-17"),
         M("twin: 0 <= x <= 1 style guard", D, "if pulse_power and (pulse_power < 0 or pulse_power > 1):", "if pulse_power and (pulse_power > 1 or pulse_power < 0):", None),
         M("twin: keyword construction", D, "self.hw_driver.timed_enable(PulseSettings(pulse_power, pulse_duration),\n                                    HoldSettings(hold_power, hold_duration))", "self.hw_driver.timed_enable(PulseSettings(power=pulse_power, duration=pulse_duration),\n                                    HoldSettings(power=hold_power, duration=hold_duration))", None),
